@@ -46,7 +46,9 @@ Kinds == <<
   \* a name with a non-ASCII character. "(R)" stands for the registered sign U+00AE: lib/e3.py puts the real character into the text and the
   \* patterns the code under test sees and the placeholder back into what it returns (TLC's JSON I/O is not safe for non-ASCII strings)
   E("nonascii-keyboard", "Microsoft Microsoft(R) 2.4GHz Transceiver v9.0", "/devices/pci0000:00/usb1/1-10/input/input26", "120013", FullKeys),
-  E("ble-uhid-keyboard", "BLE Board 5.0",               "/devices/virtual/misc/uhid/0005:046D:B342.0007/input/input25", "120013", FullKeys)
+  E("ble-uhid-keyboard", "BLE Board 5.0",               "/devices/virtual/misc/uhid/0005:046D:B342.0007/input/input25", "120013", FullKeys),
+  \* a name that ends in a double quote (an inch sign): the kernel writes it between quotes without escaping, so the line ends in two quotes
+  E("quote-name",      "Rii Mini Keyboard 7\"",          "/devices/pci0000:00/usb1/1-11/input/input27", "120013", FullKeys)
 >>
 KindIds == 1..Len(Kinds)
 
@@ -86,7 +88,7 @@ Keyboardish(e) ==
 \* keyboard-like key maps, buttons, switches") and the repository's example hardware agrees.  For these a wrong class on
 \* either path is a violation of C16 ("only real keyboards ... every other keyboard-like device is"); for the constructed
 \* boundary kinds a difference from Keyboardish stays DRIFT.
-SureKeyboard == {"keyboard", "keyboard-noleds", "virtual-keyboard", "ble-uhid-keyboard", "nonascii-keyboard"}
+SureKeyboard == {"keyboard", "keyboard-noleds", "virtual-keyboard", "ble-uhid-keyboard", "nonascii-keyboard", "quote-name"}
 SureNotKeyboard == {"gaming-mouse", "power-button", "video-bus", "cros-ec", "virtual-mouse", "mmo-mouse-macro"}
 
 \* exclude patterns and the names they match (glob semantics over the finite universe of names)
@@ -94,6 +96,7 @@ AllNames == {NameOf(Kinds[i]): i \in KindIds}
 Patterns == <<"*Mouse*", "AT Translated Set 2 keyboard", "*", "totalmapper", "AT*", "*keyboard", "?T Translated Set 2 keyboard", "Nothing*", "*Keys", "Compact?Keys",
               "SINO WEALTH Gaming KB ", "SINO WEALTH Gaming KB", "*KB?", "* ",
               "Microsoft Microsoft(R) 2.4GHz Transceiver v9.0", "*Microsoft(R)*", "*(R) 2.4GHz Transceiver v9.0",
+              "*7\"", "Rii Mini Keyboard 7", "Rii Mini Keyboard 7\"",
               ""      \* the empty pattern matches exactly the empty name (an entry without an N: line)
               >>
 MatchSet(p) ==
@@ -112,6 +115,8 @@ MatchSet(p) ==
     [] p = "*KB?" -> {"SINO WEALTH Gaming KB "}
     [] p = "* " -> {"SINO WEALTH Gaming KB "}
     [] p = "" -> {""}
+    [] p \in {"*7\"", "Rii Mini Keyboard 7\""} -> {"Rii Mini Keyboard 7\""}
+    [] p = "Rii Mini Keyboard 7" -> {}                                \* without the quote it is a different string
     [] p \in {"Microsoft Microsoft(R) 2.4GHz Transceiver v9.0", "*Microsoft(R)*", "*(R) 2.4GHz Transceiver v9.0"} -> {"Microsoft Microsoft(R) 2.4GHz Transceiver v9.0"}
 Excluded(name, pats) == \E i \in 1..Len(pats): name \in MatchSet(pats[i])
 =============================================================================
